@@ -495,12 +495,15 @@ def one_set(ctx, idx, cflags, cxxflags):
         roots, parsed, rejected = write_prefix_set(dsdl_dir)
     elif idx == "shapes":
         roots, parsed, rejected = write_shapes_set(dsdl_dir)
+    elif idx == "corpus":
+        roots = dsdlgen.write_corpus(dsdl_dir)
+        parsed, rejected = dsdlgen.read_all(dsdl_dir, roots), 0
     else:
         roots, parsed, rejected = dsdlgen.make_set(dsdl_dir, "c06/%s/%d" % (ctx.seed, idx), "hostile", nroots=2, docs=True, allow=("hostile_c_docs", "extreme_consts", "deprecated", "port_id"))
     ctx.count("drafts_rejected_by_frontend", rejected)
     alltypes = [t for r in roots for t in parsed[r]]
     witness = dict(set=idx, seed=ctx.seed, roots=roots)
-    if idx in ("prefix", "shapes") or idx % 2 == 0:
+    if idx in ("prefix", "shapes", "corpus") or idx % 2 == 0:
         inprocess_generation_with_contract(ctx, dsdl_dir, roots, parsed, d)
     configs = []
     for omit in (False, True):
@@ -532,13 +535,25 @@ def one_set(ctx, idx, cflags, cxxflags):
         return False
     if any(uses_float(t) for t in alltypes):
         variants = [v for v in variants if v[0] != "nofloat"]
-    if ctx.quick and idx not in ("shapes", "prefix"):
+    if ctx.quick and idx not in ("shapes", "prefix", "corpus"):
         variants = [variants[idx % len(variants)], variants[(idx + 2) % len(variants)]]
     for vi, (vname, vflags, ccflags) in enumerate(variants):
         configs.append(("c", [], False, vname, vflags, ccflags))
         stds = ["c++14", "c++17-pmr"] if (not ctx.quick or idx == "shapes") else [["c++14", "c++17-pmr"][vi % 2]]
         for std in stds:
             configs.append(("cpp", ["--language-standard", std], False, vname, vflags, ccflags))
+    if idx == "corpus":
+        # the coverage corpus (plain names: nothing in it needs stropping) under configuration files that change how identifiers and
+        # blank lines are treated: generation must complete and the result must build like any other
+        import yaml
+        configs = []
+        for cname, body in (("nostrop", {"enable_stropping": False}), ("zqprefix", {"stropping_prefix": "zq_", "encoding_prefix": "zY"}),
+                            ("emptylines0", {"limit_empty_lines": 0})):
+            for lang_, flags_ in (("c", []), ("cpp", ["--language-standard", "c++14"]), ("cpp", ["--language-standard", "c++17-pmr"]), ("py", [])):
+                cp = os.path.join(d, "cfg_%s_%s.yaml" % (cname, lang_))
+                with open(cp, "w") as f:
+                    yaml.safe_dump({"nunavut.lang." + lang_: body}, f)
+                configs.append((lang_, flags_, False, "cfg_" + cname, ["--configuration", cp], []))
     jobs, meta = [], {}
     for lang, flags, omit, vname, vflags, ccflags in configs:
         tag = "%s_%s_%s%s" % (lang, "".join(flags[1:]).replace("+", "p") or "default", "omit" if omit else "ser", "_" + vname if vname else "")
@@ -686,6 +701,7 @@ def run(ctx):
                 "and modules that built/imported without any diagnostic")
     one_set(ctx, "prefix", cflags, cxxflags)
     one_set(ctx, "shapes", cflags, cxxflags)
+    one_set(ctx, "corpus", cflags, cxxflags)
     for i in range(ctx.pick(3, 40)):
         one_set(ctx, i, cflags, cxxflags)
     ctx.require("translation_units_clean", 100)
